@@ -140,6 +140,20 @@ def run(facts, tier):
             t1.examined(("exit_status-only", n["path"]["def"]), True, {"constructed": n["path"]["def"], "only_under_exit_status": ok})
             if not ok:
                 t1.violate(f"exit-status-only/{n['path']['def']}", f"`{n['path']['def']}` is produced without --exit-status", where=n["sp"])
+    rmir = facts.mir_fn("jaq::real_main")
+    if rmir is None:
+        t1.missing_anchor("jaq::real_main (MIR)")
+    else:
+        b = Body(rmir)
+        merging = []
+        for i, t in b.calls():
+            c = Body.callee(t) or ""
+            if re.search(r"core::option::Option::<T>::(or|or_else|xor|and|zip|get_or_insert|get_or_insert_with|insert|filter)$", c):
+                if any("core::option::Option<bool>" in b.locals[l]["ty"] for l in b.arg_locals(i)):
+                    merging.append((c.split("::")[-1], t["sp"]))
+        t1.examined("last-overwritten", True, {"exit_status_value_merged_with_earlier_runs": merging})
+        if merging:
+            t1.violate("last-merged", f"the value that decides the --exit-status code is combined with the result of earlier files ({merging[0][0]}): it must be the last output of the whole run", where=merging[0][1])
     rules.append(t1.finish())
 
     # ---------------- T17.2 options
